@@ -8,6 +8,7 @@ package main
 // its k-th durable write.
 
 import (
+	"strings"
 	"encoding/json"
 	"flag"
 	"fmt"
@@ -81,6 +82,11 @@ func runNodeMode(args []string) error {
 	genesisFile := fs.String("genesis", "", "genesis file to install instead of the generated one")
 	fastSync := fs.Bool("fastsync", false, "start in fast-sync mode")
 	peerTimeout := fs.Int("peer-timeout", 0, "block pool peer timeout in seconds (0: leave the default)")
+	keySecret := fs.String("key-secret", "", "derive the node's validator key from this secret instead of generating one")
+	p2pPort := fs.Int("p2p-port", 0, "listen on this port (0: any)")
+	seeds := fs.String("seeds", "", "comma-separated addresses to dial")
+	reachedFile := fs.String("reached-file", "", "create this file when the target height is reached")
+	waitFiles := fs.String("wait-files", "", "then keep running until all these files exist (comma-separated)")
 	fs.Parse(args)
 	if *peerTimeout > 0 {
 		blockchain.VerifSetPeerTimeout(*peerTimeout)
@@ -101,14 +107,23 @@ func runNodeMode(args []string) error {
 	}
 	os.MkdirAll(*dir, 0700)
 	conf := nodeConf(*dir)
+	if *p2pPort > 0 {
+		conf.Set("p2p_laddr", fmt.Sprintf("tcp://127.0.0.1:%d", *p2pPort))
+	}
 	if _, err := os.Stat(filepath.Join(*dir, "genesis.json")); err != nil {
 		crypto.NodeInit(crypto.CryptoType)
+		if *keySecret != "" {
+			conf.Set("gen_privkey", crypto.GenPrivKeyEd25519FromSecret([]byte(*keySecret)))
+		}
 		if err := config.InitRuntime(*dir, "verif-chain", conf); err != nil {
 			rep.Error = "init: " + err.Error()
 			emit()
 			return nil
 		}
 		conf = nodeConf(*dir)
+		if *p2pPort > 0 {
+			conf.Set("p2p_laddr", fmt.Sprintf("tcp://127.0.0.1:%d", *p2pPort))
+		}
 		if *genesisFile != "" {
 			bs, err := ioutil.ReadFile(*genesisFile)
 			if err == nil {
@@ -122,6 +137,7 @@ func runNodeMode(args []string) error {
 		}
 	}
 	conf.Set("fast_sync", *fastSync)
+	conf.Set("seeds", *seeds)
 	config.SetDefaults(*dir, conf)
 	node, err := core.NewNode(conf, *dir, "evm")
 	if err != nil {
@@ -165,7 +181,20 @@ func runNodeMode(args []string) error {
 			}
 		}
 		if h >= sc.Target {
-			break
+			if *reachedFile != "" {
+				ioutil.WriteFile(*reachedFile, []byte("reached"), 0644)
+			}
+			all := true
+			for _, f := range strings.Split(*waitFiles, ",") {
+				if f != "" {
+					if _, err := os.Stat(f); err != nil {
+						all = false
+					}
+				}
+			}
+			if all {
+				break
+			}
 		}
 		time.Sleep(10 * time.Millisecond)
 	}
